@@ -130,6 +130,38 @@ theorem for_step (n : Nat) (σ : State) (sc : List Addr) (lhs : Expr) (k v : SVa
 theorem for_done (n : Nat) (σ : State) (sc : List Addr) (lhs : Expr) (stmts : List Stmt) :
     evalFor (n + 1) σ sc lhs [] stmts = .ok .none σ := by unfold evalFor; rfl
 
+/-- entry of `for`: the iterable expression — whatever it is: a name, a property, an element, a call, a range — is evaluated
+    exactly once; the pairs are computed from its value in the state of that moment; the loop then runs on that fixed list -/
+theorem for_entry (n : Nat) (σ : State) (sc : List Addr) (lhs iter : Expr) (stmts : List Stmt) :
+    evalStmt (n + 1) σ sc (.For lhs iter stmts) =
+      (evalExpr n σ sc iter).bind fun it σ1 =>
+        match toPairs σ1 it.v with
+        | none => crashHeap σ1
+        | some none => errAt iter.loc Gen.Leaf.ForIterNotIterable σ1
+        | some (some pairs) => evalFor n σ1 sc lhs pairs stmts := by
+  conv => lhs; unfold evalStmt
+  all_goals (try rfl)
+
+/-- … so a loop over a list walks the items the list held when the iterable expression had been evaluated: what the body
+    does to the list afterwards (through any alias) is not seen by the loop -/
+theorem for_list_snapshot (n : Nat) (σ σ1 : State) (sc : List Addr) (lhs iter : Expr) (stmts : List Stmt) (it : SVal) (a : Addr)
+    (items : List SVal) (he : evalExpr n σ sc iter = .ok it σ1) (hv : it.v = .list a) (hl : σ1.getList a = some items) :
+    evalStmt (n + 1) σ sc (.For lhs iter stmts) =
+      evalFor n σ1 sc lhs ((enumFrom 0 items).map fun (i, x) => (SVal.plain (.int (Int.ofNat i)), x)) stmts := by
+  rw [for_entry, he]; simp [Res.bind, hv, toPairs, hl]
+
+theorem for_obj_snapshot (n : Nat) (σ σ1 : State) (sc : List Addr) (lhs iter : Expr) (stmts : List Stmt) (it : SVal) (a : Addr)
+    (m : ObjMap) (he : evalExpr n σ sc iter = .ok it σ1) (hv : it.v = .obj a) (hl : σ1.getObj a = some m) :
+    evalStmt (n + 1) σ sc (.For lhs iter stmts) =
+      evalFor n σ1 sc lhs (m.map fun (k, x) => (SVal.plain (.str (utf8Encode k)), x)) stmts := by
+  rw [for_entry, he]; simp [Res.bind, hv, toPairs, hl]
+
+/-- a value that cannot be iterated is reported at the iterable expression, before anything of the body runs -/
+theorem for_not_iterable (n : Nat) (σ σ1 : State) (sc : List Addr) (lhs iter : Expr) (stmts : List Stmt) (it : SVal)
+    (he : evalExpr n σ sc iter = .ok it σ1) (hp : toPairs σ1 it.v = some none) :
+    evalStmt (n + 1) σ sc (.For lhs iter stmts) = errAt iter.loc Gen.Leaf.ForIterNotIterable σ1 := by
+  rw [for_entry, he]; simp [Res.bind, hp]
+
 /-- the snapshot: a list is walked by index, a string byte by byte, an object by ascending key (its stored order) -/
 theorem pairs_of_list (σ : State) (a : Addr) (items : List SVal) (h : σ.getList a = some items) :
     toPairs σ (.list a) = some (some ((enumFrom 0 items).map fun (i, x) => (SVal.plain (.int (Int.ofNat i)), x))) := by
